@@ -8,6 +8,7 @@
 #include <nano/machine/tune.h>
 #include <nano/tensor/stream.h>
 #include <nano/wlearner/util.h>
+#include <nano/verif.h>
 #include <set>
 
 using namespace nano;
@@ -84,6 +85,8 @@ auto fit(const configurable_t& configurable, const dataset_t& dataset, const ind
     const auto subsample_ratio = configurable.parameter("gboost::subsample_ratio").value<scalar_t>();
 
     auto [shrinkage_ratio] = decode_params(params, shrinkage);
+    NANO_VERIF_TRACE("gboost.fit.begin", train_samples.size(), valid_samples.size(), max_rounds, epsilon, patience,
+                     prototypes.size(), wlearner_t::no_fit_score(), params, valid_samples);
 
     const auto samples = arange(0, dataset.samples());
 
@@ -123,6 +126,8 @@ auto fit(const configurable_t& configurable, const dataset_t& dataset, const ind
     {
         max_rounds = 0;
     }
+    NANO_VERIF_TRACE("gboost.fit.start", max_rounds, result.m_wlearners.size(), mean_error(values, train_samples),
+                     mean_error(values, valid_samples), optimum.round(), optimum.value(), values);
 
     // construct the model one boosting round at a time
     for (tensor_size_t round = 0; round < max_rounds; ++round)
@@ -137,12 +142,15 @@ auto fit(const configurable_t& configurable, const dataset_t& dataset, const ind
         {
             auto       wlearner = prototype->clone();
             const auto score    = wlearner->fit(dataset, fit_samples, gradients);
+            NANO_VERIF_TRACE("gboost.round.score", round, score, ::nano::verif::identity(wlearner.get()));
             if (score < best_score)
             {
                 best_score    = score;
                 best_wlearner = std::move(wlearner);
             }
         }
+        NANO_VERIF_TRACE("gboost.round.best", round, best_score, static_cast<bool>(best_wlearner),
+                         ::nano::verif::identity(best_wlearner.get()));
         if (!best_wlearner)
         {
             break;
@@ -156,10 +164,13 @@ auto fit(const configurable_t& configurable, const dataset_t& dataset, const ind
         const auto function = scale_function_t{train_targets_iterator, loss, cluster, outputs, woutputs};
 
         auto gstate = solver.minimize(function, make_full_vector<scalar_t>(function.size(), 1.0), logger);
+        NANO_VERIF_TRACE("gboost.round.scale", round, gstate.x().min(), std::numeric_limits<scalar_t>::epsilon(),
+                         gstate.x());
         if (gstate.x().min() < std::numeric_limits<scalar_t>::epsilon())
         {
             // NB: scaling fails (optimization fails or convergence on training loss)
             result.update(round + 1, shrinkage_ratio, gstate, std::move(best_wlearner));
+            NANO_VERIF_TRACE("gboost.round.failed", round, result.m_wlearners.size());
             break;
         }
 
@@ -181,13 +192,19 @@ auto fit(const configurable_t& configurable, const dataset_t& dataset, const ind
         result.update(round + 1, shrinkage_ratio, gstate, std::move(best_wlearner));
 
         // early stopping
+        NANO_VERIF_TRACE("gboost.round.errors", round, result.m_wlearners.size(), mean_error(values, train_samples),
+                         mean_error(values, valid_samples), shrinkage_ratio, values);
         if (optimum.done(values, train_samples, valid_samples, result.m_wlearners, epsilon, patience))
         {
+            NANO_VERIF_TRACE("gboost.round.done", round, true, optimum.round(), optimum.value());
             break;
         }
+        NANO_VERIF_TRACE("gboost.round.done", round, false, optimum.round(), optimum.value());
     }
 
     result.done(static_cast<tensor_size_t>(optimum.round()));
+    NANO_VERIF_TRACE("gboost.fit.done", optimum.round(), optimum.value(), result.m_wlearners.size(),
+                     result.m_statistics.size<0>(), optimum.values());
 
     return std::make_tuple(std::move(result), selected(optimum.values(), train_samples),
                            selected(optimum.values(), valid_samples));
@@ -272,9 +289,15 @@ ml::result_t gboost_model_t::fit(const dataset_t& dataset, const indices_t& samp
     critical(m_prototypes.empty(), "gboost: cannot fit without any weak learner!");
 
     // tune hyper-parameters (if any)
+#ifdef NANO_VERIF
+    const auto verif_sink = ::nano::verif::trace_sink(); // the folds are fitted by worker threads: forward the observer
+#endif
     const auto callback = [&](const indices_t& train_samples, const indices_t& valid_samples,
                               const tensor1d_cmap_t params, const std::any&, const logger_t& logger)
     {
+#ifdef NANO_VERIF
+        const auto verif_scope = ::nano::verif::scoped_trace_sink_t{verif_sink};
+#endif
         auto [gboost, train_errors_losses, valid_errors_losses] = ::fit(
             *this, dataset, train_samples, valid_samples, loss, fit_params.solver(), m_prototypes, params, logger);
 
@@ -298,6 +321,8 @@ ml::result_t gboost_model_t::fit(const dataset_t& dataset, const indices_t& samp
             m_bias.vector() += pgboost->m_bias.vector();
             std::for_each(pgboost->m_wlearners.begin(), pgboost->m_wlearners.end(),
                           [&](const auto& wlearner) { m_wlearners.emplace_back(wlearner->clone()); });
+            NANO_VERIF_TRACE("gboost.model.fold", optimum_trial, fold, pgboost->m_bias, pgboost->m_wlearners.size(),
+                             m_bias, m_wlearners.size());
         }
 
         ::nano::wlearner::merge(m_wlearners);
@@ -309,6 +334,7 @@ ml::result_t gboost_model_t::fit(const dataset_t& dataset, const indices_t& samp
         {
             wlearner->scale(vdenom);
         }
+        NANO_VERIF_TRACE("gboost.model.averaged", optimum_trial, folds, denom, m_bias, m_wlearners.size());
 
         learner_t::fit_dataset(dataset);
 
